@@ -43,7 +43,7 @@ PLAN = {
         quick=["hostile4", ("notready4", dict(cap=600)), ("over5_d", dict(cap=500)), "extra:teardown", "extra:teardown_c", "extra:teardown_k1",
                ("stress:hostile4", dict(rounds=150, threads=4))],
         thorough=["hostile4", "hostile5", "notready4", "over5_d", "over5_c", "extra:teardown", "extra:teardown_c", "extra:teardown_k1"],
-        vacuity=[("hostile4", ["FixEmptyToken"]), ("hostile4", ["FixReentrant"]), ("hostile4", ["FixStackFull"])],
+        vacuity=[("hostile4", ["FixEmptyToken"]), ("hostile4", ["FixReentrant"]), ("hostile4", ["FixStackFull"]), ("over5_d", [], "force-blocks")],
     ),
     "C08": dict(
         quick=["lit_finish_exit", "lit_foreign_finish", ("lit_spawn_sweep", dict(cap=800)), "par4", ("over5_d", dict(cap=800)), ("cancel4_c", dict(cap=400)),
